@@ -100,8 +100,19 @@ func VerifC12AbacoDemux(opt AbacoUnwrapOptions, firstchan, nchan int, calls [][]
 		pktFrames = 1
 	}
 	g := NewAbacoGroup(GroupIndex{Firstchan: firstchan, Nchan: nchan}, opt)
-	out := make([][][]uint16, len(calls))
 	seq := uint32(0)
+	return verifC12Demux(g, firstchan, nchan, calls, pktFrames, &seq)
+}
+
+// verifC12Demux queues, call after call, packets interleaving the channels' samples on the group and lets
+// demuxData() de-interleave and unwrap them.
+func verifC12Demux(g *AbacoGroup, firstchan, nchan int, calls [][][]uint16, pktFrames int, seqp *uint32) ([][][]uint16, error) {
+	if pktFrames < 1 {
+		pktFrames = 1
+	}
+	out := make([][][]uint16, len(calls))
+	seq := *seqp
+	defer func() { *seqp = seq }()
 	for k, call := range calls {
 		if len(call) != nchan {
 			return nil, fmt.Errorf("verif: call %d has %d channels, want %d", k, len(call), nchan)
@@ -261,4 +272,118 @@ func VerifC12RoachStream(opt AbacoUnwrapOptions, data [][]uint16, pktSamples int
 	}
 	stop()
 	return out, false, nil
+}
+
+// ---------- a long-lived AbacoSource, configured and sampled several times ----------
+
+// verifC12Producer is a PacketProducer that hands Sample() a fixed set of packets.
+type verifC12Producer struct{ sampled []*packets.Packet }
+
+func (p *verifC12Producer) ReadAllPackets() ([]*packets.Packet, error) { return nil, nil }
+func (p *verifC12Producer) samplePackets(d time.Duration) ([]*packets.Packet, error) {
+	return p.sampled, nil
+}
+func (p *verifC12Producer) start() error        { return nil }
+func (p *verifC12Producer) discardStale() error { return nil }
+func (p *verifC12Producer) stop() error         { return nil }
+
+// VerifC12AbacoSource is one AbacoSource object (what the server holds for its whole life) that the harness
+// configures and samples again and again, as consecutive runs with different option sets do.
+type VerifC12AbacoSource struct {
+	as  *AbacoSource
+	seq uint32
+}
+
+// VerifC12NewAbacoSource makes the source (NewAbacoSource; no ring buffers or UDP receivers are activated).
+func VerifC12NewAbacoSource() (*VerifC12AbacoSource, error) {
+	as, err := NewAbacoSource()
+	if as == nil {
+		return nil, err
+	}
+	return &VerifC12AbacoSource{as: as}, nil
+}
+
+// Configure calls the real AbacoSource.Configure with the option set (no cards, no UDP receivers).
+// ErrVerifC12Rejected: Configure refused the option set.
+func (s *VerifC12AbacoSource) Configure(opt AbacoUnwrapOptions) error {
+	if err := s.as.Configure(&AbacoSourceConfig{AbacoUnwrapOptions: opt}); err != nil {
+		return ErrVerifC12Rejected
+	}
+	return nil
+}
+
+// SampleAndDemux does what the start of a run does: the real Sample() sees packets of the channel group
+// (scripted producer) and builds the groups with the configured options; then the calls' packets are queued
+// on the source's group and demuxData() is called once per call.  A panic inside Sample() propagates.
+func (s *VerifC12AbacoSource) SampleAndDemux(firstchan, nchan int, calls [][][]uint16, pktFrames int) ([][][]uint16, error) {
+	var sampled []*packets.Packet
+	for k := 0; k < 2; k++ {
+		p := packets.NewPacket(10, 20, s.seq, firstchan)
+		s.seq++
+		if err := p.NewData(make([]int16, nchan), []int16{int16(nchan)}); err != nil {
+			return nil, err
+		}
+		sampled = append(sampled, p)
+	}
+	s.as.producers = []PacketProducer{&verifC12Producer{sampled: sampled}}
+	if err := s.as.Sample(); err != nil {
+		return nil, err
+	}
+	g := s.as.groups[GroupIndex{Firstchan: firstchan, Nchan: nchan}]
+	if g == nil {
+		return nil, fmt.Errorf("verif: Sample() made no group for channels %d..%d", firstchan, firstchan+nchan-1)
+	}
+	return verifC12Demux(g, firstchan, nchan, calls, pktFrames, &s.seq)
+}
+
+// VerifC12RoachUnwrapperResampled is VerifC12RoachUnwrapper with a used device: samplePacket() builds the
+// unwrappers, the junk stream is run through the first one, then a second packet is sampled on the same
+// device (RoachSource.Sample() on a source that was sampled before) and the unwrapper it built is returned.
+func VerifC12RoachUnwrapperResampled(opt AbacoUnwrapOptions, junk []uint16) (u *PhaseUnwrapper, rejected bool, err error) {
+	if e := opt.isvalid(); e != nil {
+		return nil, true, nil
+	}
+	dev, err := NewRoachDevice("127.0.0.1:0", 40000.0)
+	if err != nil {
+		return nil, false, err
+	}
+	defer dev.conn.Close()
+	dev.unwrapOpts = opt
+	pkt := make([]byte, 18)
+	pkt[1] = 1
+	binary.BigEndian.PutUint16(pkt[2:], 1)
+	binary.BigEndian.PutUint16(pkt[4:], 1)
+	binary.BigEndian.PutUint16(pkt[6:], 1)
+	sender, err := net.DialUDP("udp", nil, dev.conn.LocalAddr().(*net.UDPAddr))
+	if err != nil {
+		return nil, false, err
+	}
+	defer sender.Close()
+	for round := 0; round < 2; round++ {
+		if _, err = sender.Write(pkt); err != nil {
+			return nil, false, err
+		}
+		err = func() (e error) {
+			defer func() {
+				if r := recover(); r != nil {
+					e = fmt.Errorf("verif: samplePacket panicked: %v", r)
+				}
+			}()
+			return dev.samplePacket()
+		}()
+		if err == nil && len(dev.unwrap) != 1 {
+			err = fmt.Errorf("verif: samplePacket built %d unwrappers, want 1", len(dev.unwrap))
+		}
+		if err != nil {
+			return nil, false, err
+		}
+		if round == 0 {
+			raw := make([]RawType, len(junk))
+			for i, v := range junk {
+				raw[i] = RawType(v)
+			}
+			dev.unwrap[0].UnwrapInPlace(&raw)
+		}
+	}
+	return dev.unwrap[0], false, nil
 }
